@@ -6,16 +6,22 @@ from core import Result, stable
 
 RULE = ("random schema tables (a root schema with atoms, typed lists / nested typed lists / typed dicts, untyped lists and dicts and AnyFields with "
         "flat and nested mutable defaults, sub-schemas, config types, lists of configurations whose item schema is reused by two lists, dynamic "
-        "parts) x histories that build two to four root configurations at random moments and apply assignments of fresh values, in-place "
-        "mutations at random depth (append / item assignment / clear / pop), resets, dynamic-field additions and list-item additions to one "
-        "root at a time. After every operation: the deep observation of every other root, its dynamic-field list, every declared default of "
-        "every schema, every schema's field names and field options are unchanged, and a root built now observes exactly what the first root "
-        "observed when it was built. The same history through the Lean heap model with the copy discipline per field derived from the "
-        "translator's table; observations after every step must agree. Non-trivial = the history mutates, below the top level, a container "
-        "that came from a nested mutable default of a field shared by two live roots")
+        "parts) x histories that build two to four root configurations at random moments and apply to one root at a time: assignments of fresh "
+        "values, in-place mutations at random depth (append / item assignment / clear / pop), resets, dynamic-field additions, list-item "
+        "additions, renderings (to_tree, asdict, pickle), loads through a format of a document with a map under an undeclared key, and every "
+        "route by which a typed container held by another root can reach this one (assignment of its proxy, update / extend, |= / +=, "
+        "load_tree of the other root's rendered tree; for untyped containers the rendered-tree route while their items are scalars). After "
+        "every operation: the deep observation of every other root, its dynamic-field list, every declared default of every schema, every "
+        "schema's field names and field options are unchanged, and a root built now observes exactly what the first root observed when it "
+        "was built. The same history through the Lean heap model with the copy discipline per field derived from the translator's table; "
+        "observations after every step must agree. Non-trivial = the history mutates, below the top level, a container that came from a "
+        "nested mutable default of a field shared by two live roots")
 TRUSTED_BASE = ["harness/props/c13.py (generator, adapter, deep observation)", "harness/extract.py default_disciplines (syntactic reading of the three __setdefault__ methods)"]
-ASSUMPTIONS = ["every operation hands the configuration fresh values; copying a value read from one configuration into another one "
-               "(a.items = b.items) shares the nested objects by ordinary Python assignment semantics and is not part of the stream (DESIGN.md, observations)"]
+ASSUMPTIONS = ["values that carry no validation keep the identity of what the application hands over, by ordinary Python semantics: the items of an "
+               "untyped list / dict or of an AnyField, and configuration objects moved between lists; copying such a value read from one "
+               "configuration into another one is not part of the stream. Typed containers are: the receiving field validates, and so re-creates, "
+               "every level (F37)",
+               "a value reaching a configuration from another one is modelled as an assignment of the (fresh) plain value observed at that moment"]
 
 NAMES = ["alpha", "beta", "gamma", "delta", "eps", "zeta", "eta", "theta"]
 KINDS = ["int", "str", "list_int", "list_list_int", "dict_str_int", "dict_str_list", "list_untyped", "dict_untyped", "any", "list_any", "dict_any"]
@@ -240,6 +246,13 @@ def apply_real(roots, root_schema, op):
         except Exception:  # noqa
             pass
         return "ok"
+    if op["op"] == "loads_unknown":
+        # a document with a non-empty map under a key the schema does not declare, through a format
+        try:
+            roots[op["cfg"]].loads(json.dumps({op["key"]: op["value"]}), format="json")
+            return "ok"
+        except Exception as e:  # noqa
+            return "err:" + type(e).__name__
     cfg = navigate(roots[op["cfg"]], op["path"])
     if cfg is None:
         return "nocfg"
@@ -248,7 +261,25 @@ def apply_real(roots, root_schema, op):
         if op["src"] >= len(roots):
             return "nocfg"
         try:
-            cfg[k] = roots[op["src"]]._data.get(k)
+            src = roots[op["src"]]._data.get(k)
+            how = op.get("how", "assign")
+            if how != "assign":
+                if src is None or cfg._data.get(k) is None:
+                    return "skip"
+                if op.get("flat_only") and any(isinstance(x, (list, dict)) for x in (src.values() if isinstance(src, dict) else src)):
+                    return "skip"          # an untyped container keeps its items as they are: only its own level is new
+            if how == "assign":
+                cfg[k] = src
+            elif how == "tree":
+                cfg.load_tree({k: roots[op["src"]].to_tree()[k]})
+            elif how == "update":
+                cfg[k].update(src) if isinstance(src, dict) else cfg[k].extend(src)
+            else:
+                tgt = cfg[k]
+                if isinstance(src, dict):
+                    tgt |= src
+                else:
+                    tgt += src
             return "ok"
         except Exception as e:  # noqa
             return "err:" + type(e).__name__
@@ -343,12 +374,28 @@ def gen_ops(rng, tables, live):
             ops.append({"op": "render", "cfg": ci, "how": rng.choice(["to_tree", "to_tree_virtual", "dumps_pickle", "asdict"])})
             continue
         if r < 0.19 and nroots >= 2:
-            # a flat typed list / dict of scalars read from another configuration and assigned here: the assignment copies it
-            flat = [(nm, fd) for nm, fd in leaf_fields(tables, 0) if fd["kind"] in ("list_int", "dict_str_int")]
-            if flat:
-                nm, fd = rng.choice(flat)
+            # a typed list / dict read from another configuration and assigned here: the assignment validates, and so re-creates, it
+            typed = [(nm, fd) for nm, fd in leaf_fields(tables, 0) if fd["kind"] in ("list_int", "dict_str_int", "list_list_int", "dict_str_list")]
+            if typed and rng.random() < 0.6:
+                # ... or reaching it through a rendered tree, or merged in place from the other configuration's proxy: a typed
+                # container validates (and so re-creates) every item, at every depth
+                nm, fd = rng.choice(typed)
+                ops.append({"op": "copyfrom", "cfg": ci, "path": [], "key": nm, "src": rng.choice([j for j in range(nroots) if j != ci]),
+                            "how": rng.choice(["tree", "update", "inplace-op"])})
+                continue
+            untyped = [(nm, fd) for nm, fd in leaf_fields(tables, 0) if fd["kind"] in ("list_untyped", "dict_untyped", "list_any", "dict_any")]
+            if untyped and rng.random() < 0.5:
+                nm, fd = rng.choice(untyped)
+                ops.append({"op": "copyfrom", "cfg": ci, "path": [], "key": nm, "src": rng.choice([j for j in range(nroots) if j != ci]),
+                            "how": "tree", "flat_only": True})
+                continue
+            if typed:
+                nm, fd = rng.choice(typed)
                 ops.append({"op": "copyfrom", "cfg": ci, "path": [], "key": nm, "src": rng.choice([j for j in range(nroots) if j != ci])})
                 continue
+        if r < 0.22:
+            ops.append({"op": "loads_unknown", "cfg": ci, "key": rng.choice(["extra", "section", "dyn2"]), "value": rng.choice([{"x": 1}, {"x": {"y": 2}}, {"k": [1]}])})
+            continue
         # choose a configuration: root, sub, or a list item
         path, sn = [], 0
         r2 = rng.random()
@@ -429,11 +476,13 @@ def wire(tables, ops, table):
         ws.append({"fields": fs, "dynamic": t["dynamic"]})
     wo = []
     for o in ops:
-        if o["op"] == "render":
+        if o["op"] == "render" or o.get("skipped"):
             continue
         w = dict(o)
         if o["op"] == "copyfrom":
             w = {"op": "set", "cfg": o["cfg"], "path": o["path"], "key": o["key"], "value": o.get("value_seen")}
+        if o["op"] == "loads_unknown":
+            w = {"op": "set", "cfg": o["cfg"], "path": [], "key": o["key"], "value": o["value"]}
         if "value" in w:
             w["value"] = wire_tree(w["value"])
         if "how" in w:
@@ -497,11 +546,25 @@ def one_case(ctx, res, i, table, reqs, pend):
     for n, op in enumerate(ops):
         before = observe(roots, schemas)
         if op["op"] == "copyfrom" and op["src"] < len(roots):
-            op["value_seen"] = plain_of(roots[op["src"]]._data.get(op["key"]))
+            seen = plain_of(roots[op["src"]]._data.get(op["key"]))
+            if op.get("how") in ("update", "inplace-op") and op["cfg"] < len(roots):
+                mine0 = plain_of(roots[op["cfg"]]._data.get(op["key"]))
+                if isinstance(mine0, dict) and isinstance(seen, dict):
+                    seen = dict(mine0, **seen)
+                elif isinstance(mine0, list) and isinstance(seen, list):
+                    seen = mine0 + seen
+                else:
+                    seen = {"unmergeable": 1}
+            op["value_seen"] = seen
         out = apply_real(roots, root_schema, op)
         after = observe(roots, schemas)
+        if out == "skip":
+            op["skipped"] = True
+            if after != before:
+                res.violate("C13:harness", "a skipped operation changed something", dict(case, at=n))
+            continue
         if op["op"] != "render":
-            trace.append({"out": out if not out.startswith("err:") else "type", "cfgs": after["cfgs"], "dyn": after["dyn"], "defaults": after["defaults"]})
+            trace.append({"out": out if not out.startswith("err:") else "type", "loose": op["op"] == "loads_unknown", "cfgs": after["cfgs"], "dyn": after["dyn"], "defaults": after["defaults"]})
         res.hist["op:" + op["op"]] += 1
         res.hist["out:" + out.split(":")[0]] += 1
         where = dict(case, at=n)
@@ -554,6 +617,94 @@ def tag_of(kind, table):
     return {"alias": "aliased-default", "shallow": "shallow-copied-default"}.get(d, "other")
 
 
+def transfer_stream(ctx, res, n):
+    """two live configurations, a container of one reaches the other by one of the routes a program would use, then every level of
+    the receiver's copy is mutated in place: the giver (and the schema) must not change. Direct oracle, no model."""
+    import cincoconfig as cc
+    rng = ctx.rng
+    typed = ["list_int", "list_list_int", "dict_str_int", "dict_str_list"]
+    untyped = ["list_untyped", "dict_untyped", "list_any", "dict_any"]
+    for i in range(n):
+        kind = rng.choice(typed + typed + untyped)
+        where = rng.choice(["root", "sub", "item"])
+        route = rng.choice(["assign", "tree", "update", "inplace-op", "add", "whole-tree"] if kind in typed else ["tree", "whole-tree"])
+        nested = kind in ("list_list_int", "dict_str_list")
+        dflt = gen_default(rng, kind)
+        if kind in untyped:
+            dflt = rng.choice([[1, 2], [3]]) if kind.startswith("list") else rng.choice([{"k": 1}, {"a": 1, "b": 2}])      # scalars only (see ASSUMPTIONS)
+        if dflt is None:
+            dflt = [] if kind.startswith("list") else {}
+        tables = [{"fields": [["x", {"f": "leaf", "kind": kind, "default": dflt}], ["n", {"f": "leaf", "kind": "int", "default": 1}],
+                              ["sub", {"f": "sub", "schema": 1, "ctype": rng.random() < 0.4}], ["items", {"f": "cfglist", "schema": 1, "ctype": rng.random() < 0.4}]], "dynamic": False},
+                  {"fields": [["x", {"f": "leaf", "kind": kind, "default": dflt}]], "dynamic": False}]
+        case = {"stream": "transfer", "kind": kind, "where": where, "route": route, "default": dflt}
+        root_schema, _ = build_real(tables)
+        schemas = all_schemas(root_schema)
+        a, b = root_schema(), root_schema()
+        a.items.append({})
+        b.items.append({})
+        base = observe([], schemas)
+        hold = {"root": lambda r: r, "sub": lambda r: r.sub, "item": lambda r: r.items[0]}[where]
+        giver, taker = hold(b), hold(a)
+        # the giver's value is its own, not the default's
+        if kind.startswith("list"):
+            giver.x.append([7] if kind == "list_list_int" else 7)
+        else:
+            giver.x["g"] = [7] if kind == "dict_str_list" else 7
+        try:
+            if route == "assign":
+                taker.x = giver.x
+            elif route == "tree":
+                taker.load_tree({"x": giver.to_tree()["x"]})
+            elif route == "whole-tree":
+                a.load_tree(b.to_tree())
+                taker = hold(a)
+            elif route == "update":
+                taker.x.update(giver.x) if isinstance(giver.x, dict) else taker.x.extend(giver.x)
+            elif route == "add":
+                taker.x = (taker.x + giver.x) if isinstance(giver.x, list) else giver.x.copy()
+            else:
+                t = taker.x
+                if isinstance(t, dict):
+                    t |= giver.x
+                else:
+                    t += giver.x
+        except Exception as e:  # noqa
+            res.case(None, kind="transfer:%s:%s:raised" % (kind, route))
+            continue
+        before = observe([b], schemas)
+        # mutate every level of the receiver's value
+        x = taker.x
+        try:
+            if isinstance(x, list):
+                for inner in list(x):
+                    if isinstance(inner, list):
+                        inner.append(5)
+                x.append([6] if kind == "list_list_int" else 6)
+                x[0] = [8] if kind == "list_list_int" else 8
+            else:
+                for inner in list(x.values()):
+                    if isinstance(inner, list):
+                        inner.append(5)
+                x["new"] = [6] if kind == "dict_str_list" else 6
+                x.pop("g", None)
+        except Exception:  # noqa
+            pass
+        after = observe([b], schemas)
+        res.case(stable([kind, where, route, dflt]) if nested else None, sample=case if i < 2 else None, kind="transfer:%s:%s" % (kind, route))
+        if before["cfgs"] != after["cfgs"]:
+            res.violate("C13:other-config-changed:transfer:" + ("typed" if kind in typed else "untyped-level"),
+                        "a container that reached one configuration from another one is still shared: mutating it changed the other configuration",
+                        dict(case, where_differs=first_diff(before["cfgs"][0], after["cfgs"][0])))
+        if after["defaults"] != base["defaults"] or after["fields"] != base["fields"]:
+            res.violate("C13:schema-changed:transfer", "moving a value between two configurations changed the schema", case)
+        # the proxies the receiver now holds belong to it
+        for inner in ([x] + (list(x) if isinstance(x, list) else list(x.values()))):
+            if hasattr(inner, "cfg") and kind in typed and inner.cfg is not taker:
+                res.violate("C13:foreign-proxy:transfer", "a configuration holds a list / dict proxy that belongs to another configuration", case)
+                break
+
+
 def run(ctx, n_quick=250, n_thorough=8000):
     import extract
     res = Result()
@@ -562,6 +713,7 @@ def run(ctx, n_quick=250, n_thorough=8000):
     reqs, pend = [], []
     for i in range(ctx.n(n_quick, n_thorough)):
         one_case(ctx, res, i, table, reqs, pend)
+    transfer_stream(ctx, res, ctx.n(300, 6000))
     replies = ctx.model(reqs)
     if replies is not None:
         for (case, trace), r in zip(pend, replies):
@@ -571,7 +723,7 @@ def run(ctx, n_quick=250, n_thorough=8000):
                 continue
             steps = r["ok"]["steps"]
             for n, (a, b) in enumerate(zip(trace, steps)):
-                if a["out"] != b["out"]:
+                if a["out"] != b["out"] and not (a.get("loose") and (a["out"] == "ok") == (b["out"] == "ok")):
                     res.disagree("C13.heap:outcome", dict(case, at=n), impl=a["out"], model=b["out"])
                     break
                 if a["cfgs"] != b["cfgs"]:
